@@ -129,6 +129,14 @@ func (c *schemaCtx) enum(name string, e *Enum) {
 	}
 	names := []string{"UNSPECIFIED"}
 	c.add(key, "enum.options[UNSPECIFIED].name", qq("UNSPECIFIED"))
+	if z := e.ExplicitZero; z != nil {
+		if z.Desc != "" {
+			c.add(key, "enum.options[UNSPECIFIED].description", qq(normDesc(z.Desc)))
+		}
+		for k, v := range z.Info {
+			c.add(key, fmt.Sprintf("enum.options[UNSPECIFIED].info[%s]", k), qq(v))
+		}
+	}
 	for i, o := range e.Options {
 		names = append(names, o.Name)
 		p := fmt.Sprintf("enum.options[%s]", o.Name)
